@@ -1,8 +1,9 @@
 (* Props/C15.v — property theorems only.  Debug attributes are correct and otherwise neutral.
-   Neutrality (debug_neutral_strict) is proved for the strict interpreter as a two-run simulation; for
-   the lazy interpreter it is PARTIAL: explored by the direct stream, which erases the three attributes on
-   the implementation's graphs and compares with the run without them, in both modes. *)
-From TSG Require Import Model.Strict Model.Lazy Model.Stdlib Proofs.DebugAttrs Proofs.Containers Proofs.DebugSim.
+   Neutrality is proved in BOTH modes as a two-run simulation: debug_neutral_strict (Proofs/DebugSim.v) for
+   the strict interpreter and debug_neutral_lazy (Proofs/DebugSimLazy.v: execution phase and evaluation
+   phase) for the lazy interpreter.  The direct stream additionally erases the three attributes on the
+   implementation's graphs and compares with the run without them, in both modes. *)
+From TSG Require Import Model.Strict Model.Lazy Model.Stdlib Proofs.DebugAttrs Proofs.Containers Proofs.DebugSim Proofs.DebugSimLazy.
 
 (* a node created by a `node` statement carries the variable's text, the 1-based line and column of the
    variable, and the syntax node matched by the stanza — and nothing else *)
@@ -51,6 +52,23 @@ Theorem debug_neutral_strict : forall (rx : Type) t fl cfg supplied budget (rege
   end.
 Proof. intros rx t fl cfg supplied budget regexes find call fuel matches g0. exact (debug_neutral_strict_lemma t fl cfg supplied budget regexes find call fuel matches g0). Qed.
 
+(* NEUTRALITY (lazy mode): the same statement for the lazy interpreter, through the execution phase (where a
+   `node` statement decorates its node and an `edge` statement records the location it will give to a NEW
+   edge) and the evaluation phase (where the recorded edge and attribute statements are applied and all
+   thunks and scoped variables are forced): the debug run and the plain run succeed or fail together —
+   same error including contexts, same panic, same polls — and erasing the configured names from the
+   debug run's graph gives exactly the plain run's graph. *)
+Theorem debug_neutral_lazy : forall (rx : Type) t fl cfg supplied budget (regexes : list rx) find call fuel (matches : list (N * qmatch)) g0,
+  cfg_distinct cfg -> call_erasable (is_dbg_of cfg) call -> file_fresh cfg fl ->
+  match run_lazy t fl cfg supplied budget regexes find call fuel matches g0 with
+  | Ok (s, p) => exists s0, run_lazy t fl config0 supplied budget regexes find call fuel matches (erase_graph (is_dbg_of cfg) g0) = Ok (s0, p) /\
+                            l_graph s0 = erase_graph (is_dbg_of cfg) (l_graph s)
+  | Err e => run_lazy t fl config0 supplied budget regexes find call fuel matches (erase_graph (is_dbg_of cfg) g0) = Err e
+  | Panic x => run_lazy t fl config0 supplied budget regexes find call fuel matches (erase_graph (is_dbg_of cfg) g0) = Panic x
+  | OutOfFuel => run_lazy t fl config0 supplied budget regexes find call fuel matches (erase_graph (is_dbg_of cfg) g0) = OutOfFuel
+  end.
+Proof. intros rx t fl cfg supplied budget regexes find call fuel matches g0. exact (debug_neutral_lazy_lemma t fl cfg supplied budget regexes find call fuel matches g0). Qed.
+
 (* the hypothesis on the function library holds of the standard library: no function reads attributes *)
 Theorem stdlib_ignores_attributes : forall is_dbg rx t, call_erasable is_dbg (stdlib_call rx t).
 Proof. exact stdlib_erasable. Qed.
@@ -74,6 +92,30 @@ Proof.
   - repeat split; intros a b Ha Hb; inversion Ha; inversion Hb; subst; discriminate.
   - split; [|intros sh []]. repeat constructor.
   - eexists. eexists. split; [vm_compute; reflexivity|]. split; [reflexivity|]. vm_compute. discriminate.
+Qed.
+
+(* the same program under the lazy interpreter: the premises hold, the debug run succeeds, decorates both
+   nodes and the edge (created in the evaluation phase), and the statement's conclusion is not vacuous *)
+Example c15_neutral_lazy_nonvacuous :
+  let x := [120] in let y := [121] in let k := [107] in
+  let cfg := {| c_loc_attr := Some [108]; c_var_attr := Some [118]; c_match_attr := Some [109] |} in
+  let st := {| st_stmts := [SNode (VarU x (1, 2)) x (1, 0); SNode (VarU y (2, 2)) y (2, 0);
+                            SEdge (EUnscoped x (3, 0)) (EUnscoped y (3, 0)) (3, 0);
+                            SAttrNode (EUnscoped x (4, 0)) [Attr k (EInt 7)] (4, 0);
+                            SAttrEdge (EUnscoped x (5, 0)) (EUnscoped y (5, 0)) [Attr k (EInt 8)] (5, 0)];
+               st_full_stanza_idx := 0; st_full_file_idx := 0; st_start := (0, 0) |} in
+  let fl := {| f_globals := []; f_inherited := []; f_shorthands := []; f_stanzas := [st] |} in
+  let t := {| t_src := []; t_nodes := [] |} in
+  cfg_distinct cfg /\ file_fresh cfg fl /\
+  exists s p, run_lazy t fl cfg [[]] None (@nil unit) (fun _ _ => None) (stdlib_call (fun _ _ _ => None) t) 50 [(0, [(0, [0])])] [] = Ok (s, p) /\
+              length (l_graph s) = 2%nat /\ erase_graph (is_dbg_of cfg) (l_graph s) <> l_graph s /\
+              (exists nd, gnode_at (l_graph s) 0 = Some nd /\ edges_get 1 (g_edges nd) = Some [([108], VStr (loc_text (3, 0))); (k, VInt 8)]).
+Proof.
+  cbv zeta. split; [|split].
+  - repeat split; intros a b Ha Hb; inversion Ha; inversion Hb; subst; discriminate.
+  - split; [|intros sh []]. repeat constructor.
+  - eexists. eexists. split; [vm_compute; reflexivity|]. split; [reflexivity|]. split; [vm_compute; discriminate|].
+    eexists. split; vm_compute; reflexivity.
 Qed.
 
 Example c15_nonvacuous : loc_text (4, 10) = [108;105;110;101;32;53;32;99;111;108;117;109;110;32;49;49].
